@@ -30,7 +30,8 @@ CONSTANTS N,          \* size of the system (1..5)
           ElimMode,   \* "none" | "all" (every injective sequence of the same length) | "sets2"
           VModes,     \* subset of {"zero", "scalar", "array"}
           RModes,     \* subset of {"array", "zero"}
-          Fmts,       \* subset of {"dense", "csr"}
+          Fmts,       \* subset of {"dense", "csr", "csc"}
+          EVModes, ERModes, EFmts,   \* the same three, used when elim_rows is given
           Buggy,      \* code-shaped model as the code stands today (negative control)
           DoEmit
 
@@ -131,7 +132,7 @@ ChooseElim ==
 ChooseModes ==
   /\ phase = "elim"
   /\ phase' = "case"
-  /\ vm' \in VModes /\ rm' \in RModes
+  /\ vm' \in (IF helim THEN EVModes ELSE VModes) /\ rm' \in (IF helim THEN ERModes ELSE RModes)
   /\ ref' = Reference(idx, vm', helim, elim, rm')
   /\ UNCHANGED <<idx, elim, helim, fmt>>
 
@@ -140,7 +141,7 @@ IsInt(v) == v[2] = 1
 Render ==
   /\ phase = "case"
   /\ phase' = "done"
-  /\ fmt' \in Fmts
+  /\ fmt' \in (IF helim THEN EFmts ELSE Fmts)
   /\ UNCHANGED <<idx, elim, helim, vm, rm, ref>>
   /\ DoEmit => Emit("RLS",
        [n |-> N, idx |-> idx, vm |-> vm, vals |-> [k \in 1..Len(idx) |-> J(ref.vals[k])],
